@@ -1,0 +1,27 @@
+//go:build verif
+
+// Contracts for deep copies (C16).
+package capnp
+
+// copyStruct, data section (PARTIAL: decided up to the first pointer copy; the pointer section
+// goes through writePtr, which allocates, and is not verified - DESIGN 10.2).  "Truncated or
+// zero-extended per struct as the documented version rules say": the destination's data section
+// holds the source's bytes up to the shorter of the two sizes and zeros beyond.
+//@ func copyStruct -> err
+//@   props C16
+//@   partial
+//@   requires wfStruct(dst) && dst.seg != nil && wfStruct(src)
+//@   loop 0 "range dstData"
+//@     invariant 0 <= rangeidx && rangeidx <= len(dstData) && sameArr(dstData, dst.seg.data)
+//@     invariant forall(0, rangeidx, func(j int) bool { return dstData[j] == 0 })
+//@     invariant copyCount == minInt(int(dst.size.DataSize), int(src.size.DataSize)) &&
+//@       sameSlice(dstData, dst.seg.data[int(dst.off)+copyCount:int(dst.off)+int(dst.size.DataSize)])
+//@     invariant forall(0, minInt(int(dst.size.DataSize), int(src.size.DataSize)), func(j int) bool {
+//@       return dst.seg.data[int(dst.off)+j] == oldbyte(src.seg.data, int(src.off)+j) })
+//@   assert before "srcPtrSect, _ := src.off.addSize" copied: forall(0, minInt(int(dst.size.DataSize), int(src.size.DataSize)), func(j int) bool {
+//@       return dst.seg.data[int(dst.off)+j] == oldbyte(src.seg.data, int(src.off)+j) })
+//@   assert before "srcPtrSect, _ := src.off.addSize" tailzero: forall(0, len(dstData), func(j int) bool { return dstData[j] == 0 })
+//@   assert before "srcPtrSect, _ := src.off.addSize" tailis: sameSlice(dstData, dst.seg.data[int(dst.off)+copyCount:int(dst.off)+int(dst.size.DataSize)])
+//@   assert before "srcPtrSect, _ := src.off.addSize" copycount: copyCount == minInt(int(dst.size.DataSize), int(src.size.DataSize))
+//@   -- (the three assertions above are the zero extension: dstData is exactly the destination's data
+//@   -- section beyond the copied prefix, and it is all zero)
